@@ -94,6 +94,19 @@ func NewReflectCopier[Src any, Dst any](opts ...option.Option[options]) (*Reflec
 
 // createFieldNodes 递归创建 field 的前缀树, srcTyp 和 dstTyp 只能是结构体
 func (r *ReflectCopier[Src, Dst]) createFieldNodes(root *fieldNode, srcTyp, dstTyp reflect.Type) error {
+	return r.createFieldNodesIn(root, srcTyp, dstTyp, map[[2]reflect.Type]struct{}{})
+}
+
+// createFieldNodesIn 递归构建字典树。visiting 记录当前递归路径上的 (src, dst) 结构体类型对，
+// 同一对类型再次出现说明类型是递归定义的（例如链表节点），此时返回错误，而不是无限递归直至栈溢出。
+func (r *ReflectCopier[Src, Dst]) createFieldNodesIn(root *fieldNode, srcTyp, dstTyp reflect.Type,
+	visiting map[[2]reflect.Type]struct{}) error {
+	pair := [2]reflect.Type{srcTyp, dstTyp}
+	if _, ok := visiting[pair]; ok {
+		return newErrRecursiveType(srcTyp)
+	}
+	visiting[pair] = struct{}{}
+	defer delete(visiting, pair)
 
 	fieldMap := map[string]int{}
 	for i := 0; i < srcTyp.NumField(); i++ {
@@ -153,7 +166,7 @@ func (r *ReflectCopier[Src, Dst]) createFieldNodes(root *fieldNode, srcTyp, dstT
 			if fieldDstTyp.Kind() != reflect.Struct {
 				return newErrKindNotMatchError(fieldSrcTyp.Kind(), fieldDstTyp.Kind(), dstFieldTypStruct.Name)
 			}
-			if err := r.createFieldNodes(&child, fieldSrcTyp, fieldDstTyp); err != nil {
+			if err := r.createFieldNodesIn(&child, fieldSrcTyp, fieldDstTyp, visiting); err != nil {
 				return err
 			}
 		} else {
